@@ -18,6 +18,8 @@ ConfigsFor(s) ==
   { Provider(k, s, lid, rid, 100, "known", "forbid") : k \in Kinds, lid \in B2(s), rid \in (IF Full THEN B2(s) ELSE {0}) }
   \cup { Provider(k, s, 0, rid, 100, "known", "forbid") : k \in Kinds, rid \in B2(s) }
   \cup { Provider(k, s, 0, 0, c, p, u) : k \in Kinds, c \in Costs, p \in {"known", "unknown"}, u \in {"allow", "forbid", "absent"} }
+  \cup { Provider(k, s, 0, 0, 100, p, u) : k \in Kinds \ {"mecab"}, p \in {"short", "long", "empty"}, u \in {"allow", "forbid", "absent"} }
+  \* (lists of another arity only where the POS is a JSON list; unk.def lines are cut to their first six POS columns by the file format)
   \cup { [kind |-> "inhibit", nl |-> s[1], nr |-> s[2], l |-> a, r |-> b] : a \in B2(s), b \in B2(s) }
 Configs == UNION { ConfigsFor(s) : s \in Shapes }
 
